@@ -1,5 +1,6 @@
 import SeqVerif.Model.SearchSpec
 import SeqVerif.Model.ActiveIndexProofs
+import SeqVerif.Model.ActiveMerge
 import SeqVerif.Extracted.C02
 /-!
 # C02 - search returns exactly the matching documents, ordered, limited and counted
@@ -107,6 +108,26 @@ theorem c02_inverse_sorted (ids : List ID) (m : List Nat) (hm : ActiveIndex.KeyS
     (u : List Nat) (hu : ActiveIndex.KeySorted ids u) :
     SortedBy false (ActiveIndex.inverseLIDs m size lo hi u) :=
   ActiveIndex.inverseLIDs_sorted ids m hm size lo hi u hu
+
+/-- `frac.mergeSorted` on two lists strictly sorted by (mid, rid, lid) descending (LIDs below MaxUint32) returns
+their strictly sorted union; consequently `TokenLIDs.GetLIDs` yields the same list however the token's LIDs were
+split over queue flushes - the form `ActiveIndex.getLIDs` the active theorem uses. -/
+theorem c02_mergeSorted_union (ids : List ID) (right left : List Nat) (hr : ActiveIndex.KeySorted ids right)
+    (hl : ActiveIndex.KeySorted ids left) (hmr : ActiveIndex.maxU32 ∉ right) (hml : ActiveIndex.maxU32 ∉ left) :
+    ActiveIndex.KeySorted ids (ActiveIndex.mergeSorted ids right left) ∧
+      ∀ v, v ∈ ActiveIndex.mergeSorted ids right left ↔ v ∈ right ∨ v ∈ left :=
+  ActiveIndex.mergeSorted_spec ids right left hr hl hmr hml
+
+theorem c02_getLIDs_merge_invariant (ids : List ID) (old queued : List Nat) (ho : ActiveIndex.maxU32 ∉ old)
+    (hq : ActiveIndex.maxU32 ∉ queued) :
+    ActiveIndex.mergeSorted ids (ActiveIndex.getLIDs ids old) (ActiveIndex.getLIDs ids queued) =
+      ActiveIndex.getLIDs ids (old ++ queued) :=
+  ActiveIndex.mergeSorted_getLIDs ids old queued ho hq
+
+/-- `Revert (Inverse v) = v` -/
+theorem c02_revert_inverse (m : List Nat) (size v w : Nat) (h : ActiveIndex.inverse m size v = some w) :
+    ActiveIndex.revert m w = v :=
+  ActiveIndex.revert_inverse m size v w h
 
 /-! ## what `Spec.search` promises (so that the equalities above say what the property says) -/
 
@@ -221,6 +242,10 @@ example : ActiveIndex.AWF exActive := by
     simp [exActive] at h2
     have : v = 1 ∨ v = 2 ∨ v = 3 := by omega
     rcases this with rfl | rfl | rfl <;> simp [exActive, ActiveIndex.idOf, maxU64]
+
+/-- the hypotheses of `c02_mergeSorted_union` are met by [3,2] and [1] over the ids of `exActive` -/
+example : ActiveIndex.KeySorted exActive.ids [3, 2] ∧ ActiveIndex.KeySorted exActive.ids [1] ∧
+    ActiveIndex.mergeSorted exActive.ids [3, 2] [1] = [3, 2, 1] := by decide +kernel
 
 example : ActiveIndex.search exActive (.leaf (.lit [97] [.star])) 6 9 false 5 true = ⟨[⟨7, 2⟩, ⟨7, 1⟩], 2⟩ := by
   decide +kernel
